@@ -270,56 +270,49 @@ def _is_new_rowid(il, text):
     return False
 
 
+def skip_reasons(ctx, res, k2):
+    """_precheck marks both documented skip reasons (read off its effect summary: the local names are free)"""
+    import re as _re
+    from ..speccheck import view
+    pv = view(ctx, '_add', '_precheck')
+    res.inst(k2, pv.loc(), 'already-added and base-missing both mark the lexicon as skipped')
+    rets = [r for r in pv.rows if r[0] == 'return' and _re.match(r'^#\d+$', r[1])]
+    cell = rets[0][1] if rets else None
+    marks = [r for r in pv.rows if r[0] == 'store' and cell and r[1].startswith(cell + '[') and not r[1].endswith('] = False')]
+    blob = ' | '.join(r[1] + ' ## ' + ' & '.join(sorted(r[2])) for r in marks)
+    own = _re.search(r"WHERE id = :id AND version = :version', \$1\)\.fetchone\(\)", blob)
+    base = _re.search(r"\$1\.get\('extends'\)", blob) and _re.search(r"WHERE id = :id AND version = :version', \$1(\.get\('extends'\)|\['extends'\])\)\.fetchone\(\) is None", blob)
+    keyed = all(_re.match(_re.escape(cell) + r"\[format_lexicon_specifier\(\$1\['id'\], \$1\['version'\]\)\] = ", r[1]) for r in marks) if cell else False
+    if not marks or not own or not base or not keyed:
+        res.find(k2, pv.loc(), f'_precheck no longer marks a lexicon as skipped for the two documented reasons (already added: a row with '
+                               f'its id and version exists; extension whose base lexicon is missing), keyed by its specifier: '
+                               f'{[(r[1][-40:], sorted(r[2])[:2]) for r in marks][:3]}')
+    return pv.f
+
+
 def r6_skip_dominance(ctx, res):
-    alr = ctx.repo.func('_add', '_add_lexical_resource')
+    import re as _re
+    from ..speccheck import view
+    av = view(ctx, '_add', '_add_lexical_resource')
     key = 'skip-dominates-writes'
-    loops = [n for n in walk_no_nested(alr.node) if isinstance(n, ast.For) and 'lexicons' in norm(n.iter)]
-    if not loops:
-        raise AnalysisError('anchor vanished: loop over resource lexicons in _add_lexical_resource')
-    writers = {s.func.key for s in write_sites(ctx)}
-    wreach = {}
-    for lp in loops:
-        res.inst(key, alr.module.loc(lp), 'skipmap test precedes every write of the lexicon')
-        guard_idx = None
-        for i, st in enumerate(lp.body):
-            if isinstance(st, ast.If) and 'skipmap' in norm(st.test) and st.body \
-                    and isinstance(st.body[-1], ast.Continue) and not st.orelse:
-                neg = isinstance(st.test, ast.UnaryOp) and isinstance(st.test.op, ast.Not)
-                if not neg:
-                    guard_idx = i
-                    # key used in the test is the specifier of this lexicon
-                    break
-        first_write = None
-        for i, st in enumerate(lp.body):
-            for call, cal in ctx.cg.calls_in(alr, st):
-                for c in cal:
-                    if c.key not in wreach:
-                        wreach[c.key] = bool(set(ctx.cg.reachable([c])) & writers)
-                    if wreach[c.key] and first_write is None:
-                        first_write = i
-            if first_write is None and any(isinstance(x, ast.Call) and isinstance(x.func, ast.Attribute)
-                                           and x.func.attr in ('execute', 'executemany') for x in ast.walk(st)):
-                first_write = i
-        if guard_idx is None:
-            # alternative idiom: whole body under `if not skipmap[spec]:`
-            wrapped = [st for st in lp.body if isinstance(st, ast.If) and 'skipmap' in norm(st.test)
-                       and isinstance(st.test, ast.UnaryOp)]
-            if wrapped and first_write is not None and lp.body[first_write] in wrapped:
-                continue
-            res.find(key, alr.module.loc(lp), 'the per-lexicon loop has no `if skipmap[spec]: continue` before its writes: '
-                                              'an already installed lexicon (or an extension without base) is written again')
-        elif first_write is not None and first_write < guard_idx:
-            res.find(key, alr.module.loc(lp.body[first_write]), 'a write for the lexicon happens before the skipmap test')
-    # _precheck marks both skip reasons from SELECTs on (id, version)
-    pc = ctx.repo.func('_add', '_precheck')
+    guard = "not skipmap[format_lexicon_specifier($1['id'], $1['version'])]"
+    dml = _re.compile(r"\.(execute|executemany)\((f?['\"])\s*(INSERT|UPDATE|DELETE|REPLACE)", _re.I)
+    writes = [r for r in av.rows if r[0] in ('call', 'eval') and (dml.search(r[1]) or r[1].startswith('_insert_lexicon('))]
+    in_loop = [r for r in writes if any(c == "for resource['lexicons']" for c in r[3])]
+    res.inst(key, av.loc(), f'{len(in_loop)} write effects inside the per-lexicon loop, {len(writes) - len(in_loop)} outside')
+    if not in_loop:
+        raise AnalysisError('anchor vanished: writes inside the loop over resource lexicons in _add_lexical_resource')
+    for r in in_loop:
+        if guard not in r[2]:
+            res.find(key, av.loc(r[4]), f'a write for the lexicon (`{r[1][:70]}`) happens without the skipmap test `{guard}` (guards '
+                                        f'{sorted(r[2])[:3]}): an already installed lexicon (or an extension without base) is written again')
+            break
+    for r in writes:
+        if r not in in_loop:
+            res.find(key, av.loc(r[4]), f'`{r[1][:70]}` writes outside the per-lexicon loop')
+            break
+    pc = skip_reasons(ctx, res, 'precheck-skip-reasons')
     k2 = 'precheck-skip-reasons'
-    res.inst(k2, pc.module.loc(pc.node), 'already-added and base-missing both set skipmap[key] = True')
-    trues = [n for n in walk_no_nested(pc.node) if isinstance(n, ast.Assign)
-             and isinstance(n.value, ast.Constant) and n.value.value is True
-             and any(isinstance(t, ast.Subscript) and norm(t.value) == 'skipmap' for t in n.targets)]
-    if len(trues) < 2:
-        res.find(k2, pc.module.loc(pc.node), f'_precheck sets skipmap[...] = True in {len(trues)} place(s); expected the two '
-                                             f'documented reasons (already added, base lexicon missing)')
     qs = [v for s in ctx.sites if s.func.key == pc.key for v in s.variants if v.stmt is not None]
     for v in qs:
         preds = sorted(p.replace(' ', '') for p in v.stmt.where_predicates(0))
